@@ -159,7 +159,7 @@ def run(ctx):
 
 MANIFEST = {
     "category": "other",
-    "technique": "MIR edge-guard and provenance rules on the live loop and the manager's forwarding loop",
+    "technique": "MIR edge-guard and provenance rules on the live loop and the manager's forwarding loop; must-pass: forwarding is not gated by the manager's dedup window",
     "text": "Static, all paths: the at-most-once guards (dedup windows) and the not-back-to-source guard dominate the send / report sites; forwarding targets are the sessions of the source's topic. Necessary structural conditions; multi-peer histories are not decided.",
     "note": "Trusted: rustc MIR, driver, rule engine; DeduplicationBuffer semantics (C24).",
 }
